@@ -181,3 +181,24 @@ V("c17-mock-unseeded", "C17", "mock_data.py", "    rs: RandomState = RandomState
 V("c17-num-procs-chunks", "C17", "analysis/drt/bht.py", "        for _ in range(0, num_attempts)\n    )", "        for _ in range(0, num_attempts + num_procs)\n    )", "fire", "num_procs-use")
 V("c17-fit-unordered", "C17", FIT, "                iterator = pool.imap(_fit_process, args, 1)", "                iterator = pool.imap_unordered(_fit_process, args, 1)", "fire", "fit_circuit")
 V("c17-benign-serial-comprehension", "C17", "analysis/drt/tr_nnls.py", "        g_tau = _solve(A_tikh, b, maxiter)\n        prog.increment()\n", "        g_tau = _solve(A_tikh, b, maxiter)\n        prog.increment(1)\n", "silent")
+
+# ---------------------------------------------------------------- C12
+V("c12-min-max-swapped", "C12", FIT, "                min=lower_limits[symbol],\n                max=upper_limits[symbol],", "                min=upper_limits[symbol],\n                max=lower_limits[symbol],", "fire", "_to_lmfit:min")
+V("c12-vary-fixed", "C12", FIT, "                vary=not fixed[symbol],", "                vary=fixed[symbol],", "fire", "_to_lmfit:vary")
+V("c12-fit-original", "C12", FIT, "    circuit = deepcopy(original_circuit)", "    circuit = original_circuit", "fire", "original-used")
+V("c12-no-writeback", "C12", FIT, "    _from_lmfit(fit.params, identifiers)\n\n    return (\n        circuit,\n        _calculate_pseudo_chisqr", "    return (\n        circuit,\n        _calculate_pseudo_chisqr", "fire", "no-writeback")
+V("c12-winner-reversed", "C12", FIT, "        fits.sort(key=lambda _: log(_[1]) if _[2] is not None else inf)", "        fits.sort(key=lambda _: log(_[1]) if _[2] is not None else inf, reverse=True)", "fire", "fit_circuit:winner")
+V("c12-limit-refusal-dropped", "C12", FIT, "            if not (lower_limits[symbol] <= value <= upper_limits[symbol]):\n                raise ValueError(\n                    f\"Expected {lower_limits[symbol]=} <= {value} <= {upper_limits[symbol]=} for {symbol=}\"\n                )\n\n", "", "fire", "limit-refusal")
+V("c12-params-other-circuit", "C12", FIT, "        parameters=_extract_parameters(circuit, fit),", "        parameters=_extract_parameters(deepcopy(circuit), fit),", "fire", "parameters-source")
+V("c12-benign-comment", "C12", FIT, "    circuit = deepcopy(original_circuit)", "    # work on a private copy\n    circuit = deepcopy(original_circuit)", "silent")
+
+# ---------------------------------------------------------------- C18
+V("c18-trnnls-total", "C18", "analysis/drt/tr_nnls.py", "    with Progress(\"Preparing matrices\", total=6) as prog:", "    with Progress(\"Preparing matrices\", total=5) as prog:", "fire", "calculate_drt_tr_nnls:budget")
+V("c18-zhit-sixth-smoother", "C18", "analysis/zhit/smoothing/__init__.py", "            \"savgol\",\n            \"whithend\",\n        ]\n        if smoothing == \"auto\"", "            \"savgol\",\n            \"whithend\",\n            \"modsinc2\",\n        ]\n        if smoothing == \"auto\"", "fire", "perform_zhit:budget")
+V("c18-zhit-literal", "C18", "analysis/zhit/__init__.py", "    num_smoothing: int = 5 if smoothing == \"auto\" else 1", "    num_smoothing: int = 4 if smoothing == \"auto\" else 1", "fire", "perform_zhit:budget")
+V("c18-fit-total", "C18", FIT, "    with Progress(\"Preparing to fit\", total=num_steps + 1) as prog:", "    with Progress(\"Preparing to fit\", total=num_steps) as prog:", "fire", "fit_circuit:budget")
+V("c18-fit-extra-increment", "C18", FIT, "        if not fits:\n            raise FittingError(\"No valid results generated!\")\n", "        if not fits:\n            raise FittingError(\"No valid results generated!\")\n\n        prog.increment()\n", "fire", "fit_circuit:budget")
+V("c18-interp-arm-removed", "C18", "analysis/zhit/interpolation.py", "    elif interpolation == \"makima\":\n        return Akima1DInterpolator(ln_omega, phase, method=\"makima\")\n", "", "fire", "interpolation:auto-not-handled")
+V("c18-increment-guard", "C18", "progress.py", "        self._i += step\n        if not (self._i <= self._total):\n            raise ValueError(f\"Expected {self._i=} <= {self._total=}\")\n\n        self._update(force=force)", "        self._i += step\n        self._update(force=force)", "fire", "Progress.increment:guard")
+V("c18-kk-steps", "C18", "analysis/kramers_kronig/exploratory.py", "    num_steps: int = 2  # Calculating weight and preparing arguments", "    num_steps: int = 1  # Calculating weight and preparing arguments", "fire", "evaluate_log_F_ext:budget")
+V("c18-benign-more-slack", "C18", FIT, "    with Progress(\"Preparing to fit\", total=num_steps + 1) as prog:", "    with Progress(\"Preparing to fit\", total=num_steps + 2) as prog:", "silent")
